@@ -1,7 +1,7 @@
 (* C14: CompactSize round trip, the four serialisations, lossless deserialisation,
    and the BIP158 reading of the filter bytes. *)
 From BU Require Import Lib.Bytes Gcs.SipHash Gcs.Gcs Gcs.GcsProofs Gcs.GcsBitsProofs Gcs.GcsMatchProofs
-  Gcs.GcsTheorems Gcs.Bip158Spec.
+  Gcs.GcsTheorems Gcs.Bip158Spec Gcs.Sort Gcs.GcsSortProofs.
 From Coq Require Import ZifyBool ZifyN ZifyNat Sorting.Sorted Sorting.Permutation.
 
 (* ---------- CompactSize ---------- *)
@@ -62,7 +62,7 @@ Proof.
     destruct (N.ltb_spec 32 (f_p f)); [lia|]. rewrite <- Hm. destruct f; reflexivity. }
   split; [exact Hfb|].
   unfold from_nbytes, filter_nbytes. rewrite read_write_varint by (unfold two32, two64 in *; lia).
-  cbn [rbind]. destruct shift_lits as (_ & _ & _ & _ & -> & _).
+  cbn [rbind]. destruct shift_lits as (_ & _ & _ & _ & -> & _). destruct start_lits as (_ & _ & -> & _).
   change (N.shiftl 1 32) with two32. destruct (N.leb_spec two32 (f_n f)); [lia | exact Hfb].
 Qed.
 
@@ -72,6 +72,7 @@ Theorem from_nbytes_accepts P M d f :
   exists n rest, read_varint d = Ok (n, rest) /\ n < two32 /\ P <= 32 /\ f = mkFilter n P (w64 (n * M)) rest.
 Proof.
   unfold from_nbytes, from_bytes. destruct shift_lits as (_ & _ & _ & -> & -> & _).
+  destruct start_lits as (_ & _ & -> & _).
   change (N.shiftl 1 32) with two32.
   destruct (read_varint d) as [[n rest]| |]; cbn [rbind].
   - destruct (N.leb_spec two32 n).
@@ -119,3 +120,75 @@ Section Bip158.
     apply (values_chain hash sort hash_lt Hs Hperm). exact Hmod.
   Qed.
 End Bip158.
+
+(* ---------- review round 2: prefixed forms, built filters, the wrap boundary ---------- *)
+
+(* the N- and NP-prefixed strings parse uniquely: CompactSize N, then (for NP) the byte P, then the bytes *)
+Theorem npbytes_parse f : f_n f < two64 ->
+  read_varint (filter_nbytes f) = Ok (f_n f, f_data f) /\
+  read_varint (filter_npbytes f) = Ok (f_n f, f_p f :: f_data f).
+Proof.
+  intros Hn. unfold filter_nbytes, filter_npbytes. split; apply read_write_varint; exact Hn.
+Qed.
+
+(* a filter rebuilt from the P- or NP-prefixed form (strip P, resp. CompactSize N and P, then FromBytes;
+   this version of the library has no FromPBytes / FromNPBytes) is the same filter *)
+Theorem deserialise_roundtrip_prefixed f M :
+  f_n f < two32 -> f_p f <= 32 -> f_mod f = w64 (f_n f * M) ->
+  (exists rest, filter_pbytes f = f_p f :: rest /\ from_bytes (f_n f) (f_p f) M rest = Ok f) /\
+  (exists rest, read_varint (filter_npbytes f) = Ok (f_n f, f_p f :: rest) /\
+                from_bytes (f_n f) (f_p f) M rest = Ok f).
+Proof.
+  intros Hn Hp Hm. destruct (deserialise_roundtrip f M Hn Hp Hm) as [Hfb _].
+  unfold filter_bytes in Hfb.
+  split; exists (f_data f); (split; [|exact Hfb]); [reflexivity|].
+  apply npbytes_parse. unfold two32, two64 in *. lia.
+Qed.
+
+(* the fields of a built filter, with no assumption on the hash or the sort *)
+Lemma build_fields hash sort P M key data f :
+  build hash sort P M key data = Ok f ->
+  P <= 32 /\ N.of_nat (length data) < two32 /\
+  f_n f = N.of_nat (length data) /\ f_p f = P /\ f_mod f = w64 (N.of_nat (length data) * M).
+Proof.
+  unfold build. destruct shift_lits as (-> & -> & -> & _). destruct start_lits as (-> & -> & _).
+  change (N.shiftl 1 32) with two32.
+  destruct (N.leb_spec two32 (N.of_nat (length data))) as [|Hn]; [discriminate|].
+  destruct (N.ltb_spec 32 P) as [|HP]; [discriminate|].
+  destruct (N.of_nat (length data) =? 0); intros H; apply Ok_inj in H; subst f; cbn [f_n f_p f_mod]; auto.
+Qed.
+
+(* every BUILT filter round-trips through all four serialisations *)
+Theorem built_roundtrip hash sort P M key data f :
+  build hash sort P M key data = Ok f ->
+  from_bytes (f_n f) (f_p f) M (filter_bytes f) = Ok f /\
+  from_nbytes (f_p f) M (filter_nbytes f) = Ok f /\
+  (exists rest, filter_pbytes f = f_p f :: rest /\ from_bytes (f_n f) (f_p f) M rest = Ok f) /\
+  (exists rest, read_varint (filter_npbytes f) = Ok (f_n f, f_p f :: rest) /\
+                from_bytes (f_n f) (f_p f) M rest = Ok f).
+Proof.
+  intros Hb. destruct (build_fields _ _ _ _ _ _ _ Hb) as (HP & Hn & En & Ep & Em).
+  assert (H1 : f_n f < two32) by (rewrite En; exact Hn).
+  assert (H2 : f_p f <= 32) by (rewrite Ep; exact HP).
+  assert (H3 : f_mod f = w64 (f_n f * M)) by (rewrite En; exact Em).
+  destruct (deserialise_roundtrip f M H1 H2 H3) as [Ha Hb'].
+  destruct (deserialise_roundtrip_prefixed f M H1 H2 H3) as [Hc Hd].
+  auto.
+Qed.
+
+(* the hypothesis N*M < 2^64 of build_is_bip158 cannot be dropped: uint64(n)*M wraps in the code, and
+   the bytes then differ from the BIP158 encoding (here N = 2, M = 2^63, P = 32: the code's modulus is 0) *)
+Theorem bip158_unbounded_refuted :
+  exists hash sort P M key data f,
+    hash_ok hash /\ sort_ok sort /\ P <= 32 /\ N.of_nat (length data) < two32 /\
+    two64 <= N.of_nat (length data) * M /\
+    build hash sort P M key data = Ok f /\
+    f_data f <> spec_filter_bytes hash sort P M key data.
+Proof.
+  exists (fun _ _ => 1099511627776), isort, 32, 9223372036854775808, [], [[]; []].
+  eexists. split; [intros k d; reflexivity|].
+  split; [split; [exact isort_sorted | exact isort_perm]|].
+  split; [discriminate|]. split; [reflexivity|]. split; [discriminate|].
+  split; [vm_compute; reflexivity|].
+  intros H. vm_compute in H. discriminate H.
+Qed.
